@@ -328,8 +328,8 @@ func observeMatrix(et *etype, m ConstMatrix) observation {
 	if r < 0 || c < 0 {
 		return o
 	}
-	for i := 0; i < r && i*c < probeCap; i++ {
-		for j := 0; j < c; j++ {
+	for i := 0; i < r && i < probeCap && i*c < probeCap; i++ {
+		for j := 0; j < c && j < probeCap; j++ {
 			s := m.ConstAt(i, j)
 			o.Bits = append(o.Bits, bitsOf(et, s))
 			if et.Real {
